@@ -537,5 +537,42 @@ theorem chainFinal_length (ksOf : AStage K V X R → List K) (gOf : AStage K V X
   | nil => intro _; rfl
   | cons s0 rest ih => intro feeds; simp [chainFinal, ih]
 
+/-- a dict (distinct keys) lists exactly one value under a key it answers -/
+theorem filter_key_of_nodup (k : K) (s : KV K V) (hnd : (s.map Prod.fst).Nodup) :
+    ((s.filter fun kv => decide (kv.1 = k)).map (·.2)) = (lookupLast k s).toList := by
+  induction s with
+  | nil => rfl
+  | cons kv s ih =>
+    obtain ⟨k0, v0⟩ := kv
+    simp only [List.map_cons, List.nodup_cons] at hnd
+    have ih' := ih hnd.2
+    by_cases h0 : k0 = k
+    · subst h0
+      have hn : lookupLast k0 s = none := (lookupLast_eq_none_iff k0 s).mpr hnd.1
+      rw [hn] at ih'
+      simp only [List.filter_cons, decide_true, if_true, List.map_cons, ih', lookupLast, hn]
+      simp
+    · have hd : decide (k0 = k) = false := by simpa using h0
+      simp only [List.filter_cons, hd, Bool.false_eq_true, if_false, ih', lookupLast]
+      cases lookupLast k s with
+      | some w => rfl
+      | none => simp [h0]
+
+omit [DecidableEq K] in
+theorem filter_map_flatten (p : K × V → Bool) (states : List (KV K V)) :
+    ((states.flatten.filter p).map (·.2)) = states.flatMap fun s => (s.filter p).map (·.2) := by
+  induction states with
+  | nil => rfl
+  | cons s states ih => simp only [List.flatten_cons, List.filter_append, List.map_append, List.flatMap_cons, ih]
+
+omit [DecidableEq K] in
+theorem ofMergeable_fold {Y : Type} (keys : List K) (m : K → Mergeable Y V R) (sel : K → X → List Y) (k : K)
+    (feed : List X) :
+    feed.foldl ((AStage.ofMergeable keys m sel).upd k) ((AStage.ofMergeable keys m sel).create k)
+      = (m k).feed (feed.map (sel k)) := by
+  unfold Mergeable.feed
+  rw [List.foldl_map]
+  rfl
+
 end Merge
 end MlModel.StrategyObs
